@@ -151,7 +151,7 @@ void build_model(Model& out, const std::string& kind, uint64_t arg)
    else if (kind == "slha" && !g_corpus.empty()) { const CorpusFile& f = g_corpus[arg % g_corpus.size()]; ops::make_from_slha(f.bytes, f.type, &out.m, &out.t); }
 }
 
-std::vector<std::string>* g_modified = nullptr; // argument-preservation violations found while executing (per thread of execution)
+bool g_check_copy = false; ///< sequential reference only: every evaluation is repeated on a fresh copy of its model
 
 /// one operation of a task program; identical code path in simulated and sequential executions
 OpResult exec_op(Context& c, const std::vector<std::string>& t, std::vector<std::string>& modified)
@@ -189,6 +189,15 @@ OpResult exec_op(Context& c, const std::vector<std::string>& t, std::vector<std:
          struct Check { const Model* md; const std::string& before; std::vector<std::string>& out; const std::string& name;
                         ~Check() { if (raw_bytes(*md) != before) out.push_back(name); } } chk{md, before, modified, t[1]};
          r.bits = sim::bits(md->m ? ops::eval_mssm(fn, *md->m) : ops::eval_thdm(fn, *md->t));
+         if (g_check_copy) {
+            // "returns the bit-identical value ... on any copy of the model"
+            Model cp;
+            if (md->m) cp.m = ops::copy_mssm(*md->m); else cp.t = ops::copy_thdm(*md->t);
+            uint64_t cb = 0; std::string cexc;
+            try { cb = sim::bits(cp.m ? ops::eval_mssm(fn, *cp.m) : ops::eval_thdm(fn, *cp.t)); } catch (...) { cexc = exception_class(); }
+            cp.reset();
+            if (!cexc.empty() || cb != r.bits) modified.push_back("copy-differs:" + t[1]);
+         }
       } else if (t[0] == "pr" && t.size() >= 3) {
          Model* md = model_ref(1);
          if (!md || md->empty()) { r.skipped = true; return r; }
@@ -369,7 +378,9 @@ RunOut run_plan(const std::vector<std::string>& lines, uint64_t run_index)
    // 2. sequential references on this thread, no simulator: program order ...
    g_prog.set(run_index, 2, "sequential");
    thrsim::reset_sequential_events();
+   g_check_copy = true;
    for (int i = 0; i < nt; ++i) { Context ctx; for (size_t k = 0; k < plan.tasks[i].size(); ++k) seq[i][k] = exec_op(ctx, plan.tasks[i][k], mod_s[i]); }
+   g_check_copy = false;
    out.seq_events = thrsim::sequential_events();
    // ... and either reverse task order, or every operation twice in a row
    g_prog.set(run_index, 3, "sequential-alt");
@@ -440,7 +451,12 @@ RunOut run_plan(const std::vector<std::string>& lines, uint64_t run_index)
       if (!(conc[i][k] == seq[i][k])) { out.sig = "mismatch:concurrent:" + op_name(op); out.detail = "task " + std::to_string(i) + " op " + std::to_string(k) + ": concurrent result " + sim::dstr([&] { double d; std::memcpy(&d, &conc[i][k].bits, 8); return d; }()) + "/" + conc[i][k].exc + " differs from sequential " + sim::dstr([&] { double d; std::memcpy(&d, &seq[i][k].bits, 8); return d; }()) + "/" + seq[i][k].exc; return out; }
    }
    // (3) argument preservation
-   for (auto* mods : {&mod_c, &mod_s, &mod_a}) for (int i = 0; i < nt; ++i) if (!(*mods)[i].empty()) { out.sig = "modified:" + (*mods)[i][0]; out.detail = "the model passed to " + (*mods)[i][0] + " changed (byte image differs after the call), task " + std::to_string(i); return out; }
+   for (auto* mods : {&mod_c, &mod_s, &mod_a}) for (int i = 0; i < nt; ++i) if (!(*mods)[i].empty()) {
+      const std::string& w = (*mods)[i][0];
+      if (w.compare(0, 13, "copy-differs:") == 0) { out.sig = "mismatch:copy:" + w.substr(13); out.detail = w.substr(13) + " evaluated on a fresh copy of the model differs from the value on the original, task " + std::to_string(i); }
+      else { out.sig = "modified:" + w; out.detail = "the model passed to " + w + " changed (byte image differs after the call), task " + std::to_string(i); }
+      return out;
+   }
    for (int k = 0; k < NSHARED; ++k) if (!g_shared[k].empty()) {
       if (raw_bytes(g_shared[k]) != g_shared_snap[k].bytes || getters_of(g_shared[k]) != g_shared_snap[k].getters ||
           (g_shared[k].m ? ops::print_mssm(*g_shared[k].m) : ops::print_thdm(*g_shared[k].t)) != g_shared_snap[k].text) {
